@@ -15,6 +15,22 @@ from .runner import HarnessError
 from .subject import repo_path
 
 WORDS_U = ["Alpha", "Beta", "Gamma", "Delta", "Omega", "Sigma", "Kappa", "Zeta", "Lambda", "Theta"]
+# free text of deprecated / since marks: what an upstream author may write in them
+MARK_TEXTS = [
+    "use something else",
+    "Use `otherProperty` instead.\nKept for clients older than 3.16.",          # several lines
+    "3.18.0 - proposed.\n  Only with {@link Position positions}.\n\nSee above.",
+    "say \"quoted\" and 'single'",
+    "path C:\\new\\table ends with \\",
+    "/* c */ // x # y */ end",
+    "<T> & </summary> {x} [y](#z)",
+    "caf\u00e9 \U0001F600 \u2028 separated",
+    "line1\r\nline2",
+    "a\tb",
+    "  padded  ",
+    "%s {0} {name} $x",
+    "@deprecated twice",
+]
 WORDS_L = ["alpha", "beta", "gamma", "delta", "omega", "sigma", "kappa", "zeta", "theta", "iota"]
 BASES = ["string", "integer", "uinteger", "decimal", "boolean", "DocumentUri", "URI", "RegExp"]
 SAFE_ALIASES = ["Pattern", "ChangeAnnotationIdentifier", "RegularExpressionEngineKind", "LSPAny", "LSPObject", "LSPArray",
@@ -235,11 +251,11 @@ class Evolver:
             if m == "proposed":
                 decl["proposed"] = True
             elif m == "deprecated":
-                decl["deprecated"] = "use something else"
+                decl["deprecated"] = self.pick(MARK_TEXTS)
             elif m == "since":
-                decl["since"] = "3.18.0"
+                decl["since"] = self.pick(["3.18.0", "3.18.0"] + MARK_TEXTS)
             elif m == "sinceTags":
-                decl["sinceTags"] = ["3.17.0", "3.18.0"]
+                decl["sinceTags"] = ["3.17.0", self.pick(["3.18.0"] + MARK_TEXTS)]
             elif m == "documentation":
                 decl["documentation"] = "Evolved declaration.\nSecond line with {@link Position} and `code`.\n@since 3.18.0"
         return marks
@@ -314,7 +330,7 @@ class Evolver:
             # productions that once exposed a defect (kept as a standing floor)
             "message-no-typename", "rust-keyword-name", "base-regexp", "empty-struct-property", "request-no-typename",
             "matrix", "same-name-different-nullness", "shared-registration-method", "diamond",
-            "message-regopts-no-params", "explicit-closed-enum", "and-registration-options", "deep-mixin", "confusing-message-names", "exotic-enum-values", "message-map-keys"]
+            "message-regopts-no-params", "explicit-closed-enum", "and-registration-options", "deep-mixin", "confusing-message-names", "exotic-enum-values", "message-map-keys", "marked-everything", "alias-shapes"]
     RUST_AND_PYTHON_KEYWORDS = ["in", "for", "as", "if", "else", "while", "continue", "break", "return", "async", "await", "try", "yield"]
 
     MATRIX_PRODUCTIONS = ["base", "ref-struct", "ref-enum", "ref-alias", "array", "map", "tuple", "ornull-first", "ornull-last", "literal",
@@ -464,6 +480,62 @@ class Evolver:
         if focus == "message-regopts-no-params":
             self.e_new_message(is_request=True, registration="own", params=False)
             return self.e_new_message(is_request=False, registration="own", params=False)
+        if focus == "alias-shapes":
+            # beyond the listed edit family (it names no alias edits): declared-only aliases of the shapes the committed
+            # model already uses - T, T[], T | T[] (either order, T a base type or a structure), a wider union
+            B = lambda n: {"kind": "base", "name": n}                      # noqa: E731
+            R = lambda n: {"kind": "reference", "name": n}                 # noqa: E731
+            ARR = lambda t: {"kind": "array", "element": t}                # noqa: E731
+            OR = lambda *ts: {"kind": "or", "items": [copy.deepcopy(t) for t in ts]}   # noqa: E731
+            b1, b2 = self.pick(["string", "DocumentUri", "uinteger", "integer"]), self.pick(["string", "uinteger", "boolean"])
+            s1 = self.pick([s for s in self.base_structs if s in ("Range", "Position", "Location", "TextEdit", "Command", "Diagnostic")] or self.base_structs)
+            shapes = [B(b1), OR(B(b1), ARR(B(b1))), OR(ARR(B(b2)), B(b2)), OR(R(s1), ARR(R(s1))), R(s1), ARR(R(s1)), ARR(B(b2)),
+                      OR(B("string"), B("integer"), R(s1))]
+            names = []
+            for t in shapes:
+                name = self.fresh_type_name("Va")
+                decl = {"name": name, "type": t}
+                if self.draw(st.integers(0, 2)) == 0:
+                    self.mark(decl)
+                self.doc["typeAliases"].append(decl)
+                names.append(name)
+            self.edits.append({"edit": "E9-new-alias", "names": names})
+            return
+        if focus == "marked-everything":
+            # every kind of declaration that can carry a deprecated / since mark gets one, with every free text of the pool
+            texts = list(MARK_TEXTS)
+            k = self.draw(st.integers(0, len(texts) - 1))
+            nxt = [k]
+
+            def text() -> str:
+                nxt[0] += 1
+                return texts[nxt[0] % len(texts)]
+
+            sname, ename = self.fresh_type_name("VfMarked"), self.fresh_type_name("VeMarked")
+            local: set = set()
+            props = []
+            for i in range(len(texts)):
+                p = self.new_property(local, depth=1, allow_literal=False, force="base", optional=bool(i % 2))
+                local.add(p["name"])
+                p["deprecated"], p["since"] = text(), text()
+                props.append(p)
+            self.doc["structures"].append({"name": sname, "properties": props, "deprecated": text(), "since": text(), "sinceTags": ["3.17.0", text()]})
+            self.new_structs.append(sname)
+            vals = [{"name": w, "value": w.lower(), "deprecated": text(), "since": text()} for w in WORDS_U[:4]]
+            self.doc["enumerations"].append({"name": ename, "type": {"kind": "base", "name": "string"}, "values": vals, "deprecated": text(), "since": text()})
+            self.new_enums.append(ename)
+            self.counter += 1
+            note = {"method": f"vf/marked{self.counter}", "messageDirection": "both", "params": {"kind": "reference", "name": sname},
+                    "deprecated": text(), "since": text()}
+            req = {"method": f"vf/markedRequest{self.counter}", "messageDirection": "clientToServer", "params": {"kind": "reference", "name": sname},
+                   "result": {"kind": "base", "name": "null"}, "deprecated": text(), "since": text(), "typeName": self.fresh_type_name("Vm") + "Request"}
+            self.doc["notifications"].append(note)
+            self.doc["requests"].append(req)
+            self.edits.append({"edit": "E1-new-structure", "name": sname, "properties": [p["name"] for p in props]})
+            self.edits.append({"edit": "E3-new-enum", "name": ename, "base": "string", "values": [v["value"] for v in vals]})
+            self.edits.append({"edit": "E6-new-message", "method": note["method"], "request": False})
+            self.edits.append({"edit": "E6-new-message", "method": req["method"], "request": True})
+            return
         if focus == "explicit-closed-enum":
             closed = [e for e in self.doc["enumerations"] if "supportsCustomValues" not in e and e["name"] != "CompletionItemKind"]
             for e in closed[:: max(1, len(closed) // 4)]:
